@@ -129,13 +129,19 @@ class Path:
         return list(self.pc)
 
     # ------------------------------------------------------------------ heap
-    def heap_get(self, ex, ref, field):
-        fm = self.heap.get(field)
+    def heap_get(self, ex, ref, field, heap=None):
+        """read a field in the current heap (or in the snapshot `heap`); typing facts of the value
+        read are assumed on this path in both cases"""
+        h = self.heap if heap is None else heap
+        fm = h.get(field)
         if fm is None:
-            fm = ex.initial_field(field)
-            self.heap[field] = fm
-            if field not in self.entry_heap:
+            # not touched (before the snapshot): the initial map
+            fm = self.entry_heap.get(field)
+            if fm is None:
+                fm = ex.initial_field(field)
                 self.entry_heap[field] = fm
+            if field not in self.heap:
+                self.heap[field] = fm
         e = ref.e if isinstance(ref, sv.SV) else ref
         v = fm.get(e)
         for c in sv.wf(v):
